@@ -236,5 +236,78 @@ def batch_programs():
     return P
 
 
+def iface_cells():
+    """C16: (method, sde_type, noise, d, m, grad_free) of the interface-variant steps"""
+    C = []
+    for method, sde_type, noises in SOLVER_TABLE:
+        for noise in noises:
+            C.append((method, sde_type, noise, 1, 1, False))
+            if method == 'milstein' and noise != 'additive':
+                C.append((method, sde_type, noise, 1, 1, True))
+    for method in ('euler', 'heun', 'midpoint', 'log_ode', 'reversible_heun'):
+        C.append((method, 'ito' if method == 'euler' else 'stratonovich', 'general', 2, 2, False))
+    C += [('milstein', 'ito', 'diagonal', 2, 2, False), ('milstein', 'stratonovich', 'diagonal', 2, 2, False),
+          ('srk', 'ito', 'diagonal', 2, 2, False)]
+    return C
+
+
+def iface_name(cell, variant):
+    return step_name(*cell) + '__' + variant
+
+
+def iface_expect():
+    """committed expectation (written by vlib/author_c16.py from a trace of the unchanged sources):
+    program name -> 'ok' | 'RuntimeError:<method>'"""
+    import json
+    import os
+    p = os.path.join(os.path.dirname(os.path.abspath(__file__)), 'iface_expect.json')
+    return json.load(open(p)) if os.path.exists(p) else {}
+
+
+def iface_programs(only_expected_ok=True):
+    """C16: one solver step per (cell, interface variant) through the real ForwardSDE / RenameMethodsSDE (group 'Iface').
+    The baseline variant 'fg' is the existing Steps program.  Cells whose real step raises (a method the solver needs is
+    neither supplied nor derivable) are not programs: their outcome is recorded in Gen/IfaceTables.lean (vlib/iface.py)."""
+    from . import prog_solvers as ps
+    exp = iface_expect()
+    P = []
+    for cell in iface_cells():
+        method, sde_type, noise, d, m, gf = cell
+        for variant in ps.VARIANTS:
+            if variant == 'fg':
+                continue
+            name = iface_name(cell, variant)
+            if only_expected_ok and exp.get(name) != 'ok':
+                continue
+            fn, sample, funcs = ps.make_step(method, sde_type, noise, d, m, options={'grad_free': True} if gf else None,
+                                             variant=variant)
+            tol = 1e-12 if (method in ('milstein', 'log_ode') and not gf) else (4e-15 if method == 'srk' or gf else 0.0)
+            P.append(Prog(name, 'Iface', fn, sample, funcs=funcs, tol=tol, props=('C16',)))
+    return P
+
+
+def ops_programs():
+    """C16: the operators ForwardSDE derives from the diffusion (group 'Ops')"""
+    from . import prog_ops as po
+    P = []
+    for op, noise, d, m, mode, batch, full in po.ops_cells():
+        fn, sample, funcs, rg = po.make_op(op, noise, d, m, mode, batch, full)
+        P.append(Prog(po.ops_name(op, noise, d, m, mode, batch, full), 'Ops', fn, sample, funcs=funcs, rg=rg,
+                      tol=0.0 if op == 'prod' else 1e-12, props=('C16',)))
+    return P
+
+
+def adjoint_programs():
+    """C11: the vector fields of the real AdjointSDE (group 'Adjoint'), see prog_adjoint.py"""
+    from . import prog_adjoint as pa
+    P = []
+    for call, sde_type, noise, d, m, mode in pa.table():
+        fn, sample, funcs, rg = pa.make_adjoint(call, sde_type, noise, d, m, mode)
+        P.append(Prog(pa.prog_name(call, sde_type, noise, d, m, mode), 'Adjoint', fn, sample, funcs=funcs, rg=rg, tol=1e-11,
+                      props=('C11',)))
+    return P
+
+
 def all_programs():
-    return brownian_programs() + solver_programs() + loop_programs() + logqp_programs() + batch_programs() + staged_programs() + grad_programs()
+    return (brownian_programs() + solver_programs() + loop_programs() + logqp_programs() + batch_programs() + staged_programs() + grad_programs()
+            + iface_programs() + ops_programs() + adjoint_programs())
